@@ -522,7 +522,7 @@ impl Prop for C11 {
     fn plan(&self, tier: Tier) -> Plan {
         match tier {
             Tier::Quick => Plan { runs: corpus_size() + 6000, time_box_s: None, isolation: Isolation::Threads },
-            Tier::Thorough => Plan { runs: corpus_size() + 1_500_000, time_box_s: Some(420), isolation: Isolation::Threads },
+            Tier::Thorough => Plan { runs: corpus_size() + 12_000_000, time_box_s: Some(420), isolation: Isolation::Threads },
         }
     }
     fn generate(&self, rc: &RunCtx) -> Case {
